@@ -265,6 +265,91 @@ pub fn replay_smoothvec(args: &Args) {
     println!("{}", json!({"vectors": t.vectors, "steps": t.steps, "configs": configs, "mismatches": t.mismatches, "bad": t.bad}));
 }
 
+// ---------------------------------------------------------------- marginal MAP / branch and bound (spec/GenMmap.tla)
+
+fn run_mmap<'a, T: IteTable<'a, BddPtr<'a>> + Default>(b: &'a RobddBuilder<'a, T>, cfgname: &str, order: &[usize], nv: usize, vecs: &[Value], t: &mut Tally) {
+    use rsdd::util::semirings::RealSemiring;
+    let mut memo = HashMap::new();
+    for v in vecs {
+        let f = bdd_build(b, tt_of(&v["f"]), 0, order, nv, &mut memo);
+        let q: Vec<usize> = v["q"].as_array().unwrap().iter().map(|x| x.as_u64().unwrap() as usize).collect();
+        let qv: Vec<VarLabel> = q.iter().map(|x| VarLabel::new_usize(*x)).collect();
+        let w: Vec<(f64, f64)> = v["w"].as_array().unwrap().iter().map(|p| (p[0][0].as_f64().unwrap() / 8.0, p[1][0].as_f64().unwrap() / 8.0)).collect();
+        let params = rsdd::repr::WmcParams::<RealSemiring>::new(HashMap::from_iter(
+            w.iter().enumerate().map(|(i, (l, h))| (VarLabel::new_usize(i), (RealSemiring(*l), RealSemiring(*h)))),
+        ));
+        let scores: Vec<f64> = v["scores"].as_array().unwrap().iter().map(|x| x.as_f64().unwrap()).collect();
+        let opt = v["opt"].as_f64().unwrap();
+        let scale = 8f64.powi(nv as i32);
+        for which in ["marginal_map", "bb"] {
+            t.steps += 1;
+            let r = guarded(|| {
+                if which == "bb" {
+                    let (val, m) = f.bb(&qv, nv, &params);
+                    (val.0, m)
+                } else {
+                    f.marginal_map(&qv, nv, &params)
+                }
+            });
+            let (ok, got) = match r {
+                Ok((val, m)) => {
+                    // the returned assignment: exactly the query variables, and its score is the optimum
+                    let mut bits = 0usize;
+                    let mut shape_ok = true;
+                    for (k, x) in q.iter().enumerate() {
+                        match m.get(VarLabel::new_usize(*x)) {
+                            Some(true) => bits |= 1 << k,
+                            Some(false) => {}
+                            None => shape_ok = false,
+                        }
+                    }
+                    for x in 0..nv {
+                        if !q.contains(&x) && m.get(VarLabel::new_usize(x)).is_some() {
+                            shape_ok = false;
+                        }
+                    }
+                    (shape_ok && val * scale == opt && scores[bits] == opt, json!({"value_x8^n": val * scale, "assignment_bits": bits, "call": which}))
+                }
+                Err(m) => (false, json!({"panic": m, "call": which})),
+            };
+            if !ok {
+                t.mismatches += 1;
+                if t.bad.len() < 10 {
+                    t.bad.push(json!({"cfg": cfgname, "order": order, "vector": v, "got": got}));
+                }
+            }
+        }
+    }
+}
+
+pub fn replay_mmapvec(args: &Args) {
+    let text = std::fs::read_to_string(args.str("in", "")).expect("read vectors");
+    let nv = args.num("nv", 3) as usize;
+    let seed = args.num("seed", 1);
+    let vecs: Vec<Value> = text.lines().map(|l| serde_json::from_str(l).unwrap()).collect();
+    let mut rng = Rng::new(seed ^ 0x33a9);
+    let orders: Vec<Vec<usize>> = vec![(0..nv).collect(), (0..nv).rev().collect(), rng.perm(nv)];
+    let mut t = Tally { vectors: vecs.len(), steps: 0, mismatches: 0, bad: vec![] };
+    let mut configs = 0;
+    for (i, order) in orders.iter().enumerate() {
+        let (tcap, ccap) = if i == 1 { (2usize, Some(1usize)) } else { (0, None) };
+        rsdd::verif::set_table_capacity(tcap);
+        rsdd::verif::set_lru_capacity(ccap);
+        configs += 1;
+        let ord = VarOrder::new(&order.iter().map(|v| VarLabel::new_usize(*v)).collect::<Vec<_>>());
+        if i == 1 {
+            let b = RobddBuilder::<LruIteTable<BddPtr>>::new(ord);
+            run_mmap(&b, "lru/tcap2", order, nv, &vecs, &mut t);
+        } else {
+            let b = RobddBuilder::<AllIteTable<BddPtr>>::new(ord);
+            run_mmap(&b, "all/tcap0", order, nv, &vecs, &mut t);
+        }
+    }
+    rsdd::verif::set_table_capacity(0);
+    rsdd::verif::set_lru_capacity(None);
+    println!("{}", json!({"vectors": t.vectors, "steps": t.steps, "configs": configs, "mismatches": t.mismatches, "bad": t.bad}));
+}
+
 // ---------------------------------------------------------------- standard triples (Ite::new)
 
 pub fn replay_itevec(args: &Args) {
